@@ -559,3 +559,126 @@ Lemma refuted_cleared_error :
   /\ obs VResetClears = [(POk, [0], false)]%Z
   /\ obs VFixed = [(PInner 0, [0], true); (POk, [], false)]%Z.
 Proof. vm_compute. repeat split; reflexivity. Qed.
+
+(** ** every remembered / recorded error code comes from the inner sink *)
+Section LastInv.
+  Context {E : Type}.
+  Variable inner : nat -> list E -> option Z.
+  Variable Pc : Z -> Prop.
+  Hypothesis Hin : forall call l e, inner call l = Some e -> Pc e.
+
+  Definition last_ok (ws : wstate E) : Prop := forall e, ws_last ws = Some e -> Pc e.
+
+  Lemma wsink_last_ok sc k : forall fuel l st,
+    last_ok st -> last_ok (snd (wsink inner sc k fuel l st)).
+  Proof.
+    induction fuel as [|f IH]; intros l st Hst; cbn [wsink];
+      destruct (inner (ws_calls st) l) as [e|] eqn:Hi.
+    - destruct l as [|x [|y l']]; cbn.
+      + intros e' [= <-]. eauto.
+      + destruct (limit_hit k (S (ws_count st))); cbn; intros e' He.
+        * destruct (ws_last st) eqn:Hl; inversion He; subst; eauto.
+        * inversion He; subst; eauto.
+      + exact Hst.
+    - cbn. intros e' He. destruct (sc && (ws_depth st =? 0)); [discriminate | eauto].
+    - destruct l as [|x [|y l']].
+      + cbn. intros e' [= <-]. eauto.
+      + destruct (limit_hit k (S (ws_count st))); cbn; intros e' He.
+        * destruct (ws_last st) eqn:Hl; inversion He; subst; eauto.
+        * inversion He; subst; eauto.
+      + set (l0 := x :: y :: l'). set (sp := Nat.div2 (length l0)).
+        set (st1 := {| ws_last := ws_last st; ws_depth := S (ws_depth st); ws_count := ws_count st;
+                       ws_calls := S (ws_calls st); ws_log := ws_log st |}).
+        assert (H1 : last_ok st1) by exact Hst.
+        pose proof (IH (firstn sp l0) st1 H1) as P1.
+        destruct (wsink inner sc k f (firstn sp l0) st1) as [r1 st2]. cbn [snd] in P1.
+        destruct r1; [apply IH; exact P1 | exact P1].
+    - cbn. intros e' He. destruct (sc && (ws_depth st =? 0)); [discriminate | eauto].
+  Qed.
+
+  Lemma sync_pages_last_ok v cfg src : forall fuel tok killed cnt ws,
+    last_ok ws ->
+    let '(e, _, _, ws') := sync_pages inner v cfg fuel src tok killed cnt ws in
+    last_ok ws' /\ (forall c, e = PInner c -> Pc c).
+  Proof.
+    induction fuel as [|f IH]; intros tok killed cnt ws Hws; cbn [sync_pages].
+    - split; [exact Hws | discriminate].
+    - destruct killed; [split; [exact Hws | discriminate]|].
+      destruct (firstn (c_batch cfg) (skipn tok src)) as [|p0 page'] eqn:Hpage; [split; [exact Hws | discriminate]|].
+      unfold sink_call. destruct (c_log cfg).
+      + pose proof (wsink_last_ok (success_clears v) (c_maxItems cfg) (length (p0 :: page')) (p0 :: page') ws Hws) as P.
+        destruct (wsink inner (success_clears v) (c_maxItems cfg) (length (p0 :: page')) (p0 :: page') ws) as [r ws1].
+        cbn [snd] in P. destruct r; [apply IH; exact P | split; [exact P | discriminate]].
+      + destruct (inner (ws_calls ws) (p0 :: page')) as [e|] eqn:Hi.
+        * split; [exact Hws | intros c [= <-]; eauto].
+        * apply IH. exact Hws.
+  Qed.
+
+  Lemma run_last_ok v cfg src (st : jstate E) :
+    last_ok (j_ws st) ->
+    last_ok (j_ws (snd (run inner v cfg src st)))
+    /\ (forall c, r_err (fst (run inner v cfg src st)) = PInner c -> Pc c).
+  Proof.
+    intros Hst. unfold run.
+    set (ws0 := {| ws_last := _; ws_depth := _; ws_count := _; ws_calls := _; ws_log := [] |}).
+    assert (H0 : last_ok ws0).
+    { subst ws0. intros e. cbn. destruct (c_log cfg); [destruct (j_wrapped st)|]; cbn; try apply Hst.
+      destruct (reset_clears v); [discriminate | apply Hst]. }
+    pose proof (sync_pages_last_ok v cfg src (S (length src)) (j_tok st) false 0 ws0 H0) as P.
+    destruct (sync_pages inner v cfg (S (length src)) src (j_tok st) false 0 ws0) as [[[e cnt] tok] ws].
+    destruct P as [Hws He].
+    destruct e; cbn.
+    - destruct (j_wrapped st || c_log cfg); [destruct (ws_last ws) eqn:Hl|]; cbn;
+        (split; [exact Hws | try discriminate]). intros c [= <-]. eauto.
+    - split; [exact Hws | exact He].
+    - destruct (j_wrapped st || c_log cfg); [destruct (ws_last ws) eqn:Hl|]; cbn;
+        (split; [exact Hws | try discriminate]). intros c [= <-]. eauto.
+    - split; [exact Hws | discriminate].
+  Qed.
+End LastInv.
+
+(** ** burst: re-executions on top of the external runs are bounded by the retries *)
+Section BurstProofs.
+  Variable inner : nat -> list Z -> option Z.
+
+  Theorem burst_len_bound v cfg : forall fuel n ext queued (st : jstate Z),
+    (Z.of_nat (length (burst inner v cfg fuel n ext queued st))
+     <= Z.of_nat ext + Z.of_nat queued + Z.max 0 (j_retries st))%Z.
+  Proof.
+    induction fuel as [|f IH]; intros n ext queued st; [cbn; lia|].
+    cbn [burst].
+    pose proof (run_pending inner v cfg (zseq 0 n) st) as P.
+    destruct ext as [|e].
+    - destruct queued as [|q]; [cbn; lia|].
+      destruct (run inner v cfg (zseq 0 n) st) as [r st'] eqn:R. cbn [fst snd] in P.
+      destruct P as (Hret & Hp & Hnp). cbn [length].
+      destruct (r_pending r) eqn:Hpend.
+      + destruct (Hp eq_refl) as (_ & Hpos & Hdec & _). specialize (IH n 0 (S q) st'). lia.
+      + specialize (Hnp eq_refl). specialize (IH n 0 q st'). lia.
+    - destruct (run inner v cfg (zseq 0 n) st) as [r st'] eqn:R. cbn [fst snd] in P.
+      destruct P as (Hret & Hp & Hnp). cbn [length].
+      destruct (r_pending r) eqn:Hpend.
+      + destruct (Hp eq_refl) as (_ & Hpos & Hdec & _). specialize (IH n e (S queued) st'). lia.
+      + specialize (Hnp eq_refl). specialize (IH n e queued st'). lia.
+  Qed.
+
+  (** a chain that is not cut off by its fuel ends with a run that schedules nothing *)
+  Lemma chain_last v cfg : forall fuel n adds crons (st : jstate Z),
+    (Z.of_nat crons + Z.max 0 (j_retries st) < Z.of_nat fuel)%Z ->
+    exists rs r, chain inner v cfg fuel n adds crons st = rs ++ [r] /\ r_pending r = false.
+  Proof.
+    induction fuel as [|f IH]; intros n adds crons st Hf; [lia|].
+    cbn [chain].
+    pose proof (run_pending inner v cfg (zseq 0 n) st) as P.
+    destruct (run inner v cfg (zseq 0 n) st) as [r st'] eqn:R. cbn [fst snd] in P.
+    destruct P as (Hret & Hp & Hnp).
+    destruct (r_pending r) eqn:Hpend.
+    - destruct (Hp eq_refl) as (_ & Hpos & Hdec & _).
+      destruct (IH (match adds with a :: _ => n + a | [] => n end) (tl adds) crons st' ltac:(lia)) as (rs & r' & -> & Hr').
+      exists (r :: rs), r'. auto.
+    - specialize (Hnp eq_refl). destruct crons as [|c].
+      + exists [], r. auto.
+      + destruct (IH (match adds with a :: _ => n + a | [] => n end) (tl adds) c st' ltac:(lia)) as (rs & r' & -> & Hr').
+        exists (r :: rs), r'. auto.
+  Qed.
+End BurstProofs.
